@@ -830,12 +830,13 @@ def _parse_int(ex, st, p, w, signed, base=10):
     names = []
     while True:
         b = st.mem.load(p, 1)
+        if not isinstance(b, int) and base != 10:
+            b = ex.concretize(st, b, 8, 'hex digit')        # hexadecimal digits are split over their values
         if isinstance(b, int):
             if base == 10 and 48 <= b <= 57: d = b - 48
             elif base == 16 and (48 <= b <= 57 or 65 <= b <= 70 or 97 <= b <= 102): d = int(chr(b), 16)
             else: break
         else:
-            if base != 10: b = ex.concretize(st, b, 8, 'hex digit'); continue
             isd = z3.And(z3.UGE(b, 48), z3.ULE(b, 57))
             if not ex.concretize_bool(st, isd): break
             d8 = z3.simplify(b - 48)
